@@ -45,7 +45,7 @@ CLAIMS["C01"] = dict(
           "objective.value(x+d) - o <= 0 (sign proof: acceptance => ratio >= c >= 0, denominator >= 0 on each path where a "
           "ratio definition is used, numerator = -(value(x+d) - o) with o fresh, accepted point = x + that d); (D3) accepted "
           "iterates are reported and exits return the iterate state or the reported successful point; (D4) a NaN ratio "
-          "rejects the step and shrinks the radius. Convergence on convex problems, uniqueness, and finiteness beyond D4 "
+          "rejects the step and shrinks the radius; the settings factory puts every parameter into the field of the same name. Convergence on convex problems, uniqueness, and finiteness beyond D4 "
           "are trajectory properties and are NOT decided."),
     design_ref="DESIGN.md section 4, C01",
     technique="static analysis: CFG dominators + reaching definitions with branch facts, sign and NaN-polarity abstract domains, homogeneity degree")
@@ -56,7 +56,7 @@ CLAIMS["C05"] = dict(
           "point, descent sign proof, NaN polarity, parameters before solve), plus feasibility by construction: project is a "
           "clamp on the bounds columns that solve() builds from equally scaled lower/upper bounds; project_onto_tr returns only "
           "projections; every Cauchy step is project(.)-x; the SPG step changes only by alpha*(project_onto_tr(.)-(x+z)) with "
-          "alpha <= 1 through every line-search callee; the trial point is x + that step. alpha >= 0, brentq and optimality "
+          "alpha <= 1 through every line-search callee; the trial point is x + that step; the settings factory fills fields by name. alpha >= 0, brentq and optimality "
           "for convex problems are NOT decided."),
     design_ref="DESIGN.md section 4, C05",
     technique="static analysis: guarded-return/dominator rules, sign proof, feasibility-provenance dataflow over reaching definitions, interprocedural bound on step length")
@@ -70,9 +70,13 @@ CLAIMS["C04"] = dict(
           "(line-search writes are followed by it or restore a saved copy); (D3) .kappa is written in the solve cone only as "
           "kappa.at[m].set(penalty_scaling*kappa[m]) on the current penalties, reset_kappa only before the solve; (D4) exact "
           "algebraic identities: the penalty arms are C0/C1 on the switch l = k*c and the first-order update is -d(penalty)/dc. "
+          "AlSolver.get_settings puts every parameter into the field of the same name (so penalty_scaling is the growth factor that is "
+          "read); degree typing in the diagonal scaling s of the bound-constrained front end: the initial iterate is s*x0, the user "
+          "objective sees xBar/s, initial multipliers have degree -1, every get_* accessor returns a degree-0 (physical) quantity "
+          "(multipliers are lam*s), inherited evaluators receive s*x, and bound_constrained_solve returns xBar/s. "
           "Under the recorded assumptions penalty_scaling >= 1, use_newton_only False. KKT residual values are NOT decided."),
     design_ref="DESIGN.md section 4, C04",
-    technique="static analysis: guarded-return dominators, who-may-write + last-writer analysis over the call-graph cone, exact rational-function identities (normal forms) for the penalty arms")
+    technique="static analysis: guarded-return dominators, who-may-write + last-writer analysis over the call-graph cone, exact rational-function identities (normal forms) for the penalty arms, homogeneity-degree typing of the variable scaling, named-field wiring of the settings factory")
 
 CLAIMS["C19"] = dict(
     category="other",
@@ -96,7 +100,8 @@ CLAIMS["C06"] = dict(
           "its subspace sibling); (D2) every dogleg return is justified by its path condition and the Cauchy point is a "
           "non-positive multiple of the gradient on both curvature branches; (D3) treigen.solve type-checks in an index-space "
           "type system (space vs eigen-mode axes; eigh gives eigenvectors as columns), returns space vectors, and its hard-case "
-          "multiplier puts the step on the boundary and stays finite when p is orthogonal to the eigenvector. Model decrease "
+          "multiplier puts the step on the boundary and stays finite when p is orthogonal to the eigenvector, and the offset added to "
+          "-lambda_min to start the boundary iteration is non-negative for every spectrum (sign analysis; witness spectrum otherwise). Model decrease "
           ">= Cauchy decrease, interior Newton residuals and global optimality are NOT decided."),
     design_ref="DESIGN.md section 4, C06",
     technique="static analysis: algebraic normal forms with algebraic/Gram atoms, dominator rules on labelled exits, currentness of loop-carried arguments via reaching definitions, index-space type inference")
@@ -148,9 +153,12 @@ CLAIMS["C13"] = dict(
           "make_parent_element_2d), vertices are taken from the first three Exodus columns before permuting; (D3) in order "
           "elevation the right neighbour gets the flipped edge-node list under elemRight >= 0, node numbers come from consecutive "
           "disjoint ranges stacked like the coordinates, and the interior-node affine map agrees with the convention of "
-          "FunctionSpace.map_element_shape_grads. Areas, adjacency correctness and node placement as numbers are NOT decided."),
+          "FunctionSpace.map_element_shape_grads; merging is lossless on every path of the merge loops (path enumeration with "
+          "propositional feasibility: a store that does not contain the first mesh's entry is allowed only where the key is new or the "
+          "old entry is empty); reference-element tables as in C03 (vertex/face/interior node lists of plain and bubble elements, "
+          "degrees 1..5). Areas, adjacency correctness and node placement as numbers are NOT decided."),
     design_ref="DESIGN.md section 4, C13",
-    technique="static analysis: lossy-merge detection, index-kind typing, shift counting via algebraic normal forms, constant folding of table formulas, sibling comparison")
+    technique="static analysis: path-sensitive lossy-merge detection, index-kind typing, shift counting via algebraic normal forms, constant folding of table formulas, partial evaluation of reference-element tables, sibling comparison")
 
 CLAIMS["C14"] = dict(
     category="other",
@@ -221,7 +229,7 @@ CLAIMS["C17"] = dict(
           "guess; f(bracket[k]) == 0 selects bracket[k] and sets converged; orientation and bracket maintenance share one sign "
           "convention; the bisection step is the bracket midpoint, the Newton step x - f/f' and Newton is rejected by the product "
           "test when it leaves the bracket; the while-loop carry has one order everywhere; the result is NaN unless converged; "
-          "find_root is custom_root(f, x0, rtsafe_ on the same bracket/settings, y/g(1)). That the returned value meets the "
+          "find_root is custom_root(f, x0, rtsafe_ on the same bracket/settings, y/g(1)); get_settings fills Settings fields by name. That the returned value meets the "
           "tolerance and lies in the bracket for every function is trajectory dependent and NOT decided."),
     design_ref="DESIGN.md section 4, C17",
     technique="static analysis: ordering via reaching definitions/dominators, pairing and sign-convention sibling rules, slot-table agreement, algebraic normal forms")
@@ -234,10 +242,13 @@ CLAIMS["C16"] = dict(
           "penalty kernel evaluates the obstacle function at quadrature points of (edge coordinates + edge displacements) and the "
           "vmapped totals pass the same roles; the penalty integrand is stiffness * integral of square(minimum(0, phi)) with "
           "non-negative weights; mortar weights use smoothed end parameters of their own side (A signed, B through abs), the "
-          "degree-2 Gauss rule, the average of both sides, and the smoothed parameter is the specified C1 ramp. Distances, "
+          "degree-2 Gauss rule, the average of both sides, and the smoothed parameter is the specified C1 ramp; in the nodal assembly the "
+          "(1-xi)-weighted segment integral reaches the first node and the xi-weighted one the second node of each B segment (tags "
+          "propagated through tuple returns, vmap and unpacking to the scatter-add); every argmin over signed edge distances in "
+          "Contact.py ranks absolute values. Distances, "
           "rigid-motion invariance and overlap lengths as numbers are NOT decided."),
     design_ref="DESIGN.md section 4, C16",
-    technique="static analysis: sibling comparison by symbolic evaluation, pairing/clamping rules, dependency analysis of sample points, integrand-shape rules")
+    technique="static analysis: sibling comparison by symbolic evaluation, pairing/clamping rules, tuple-slot tag dataflow, dependency analysis of sample points, integrand-shape rules")
 
 CLAIMS["C12"] = dict(
     category="other",
@@ -285,9 +296,13 @@ CLAIMS["C03"] = dict(
           "folding of the literal tables every triangle-rule branch has positive weights, interior points and all monomial moments "
           "up to the largest degree it is selected for equal a!b!/(a+b+2)! (2e-14), and the 1D rule has 2n-1 >= degree for degree "
           "0..25; edge integration uses jacobian*weights, the 1D parent element's shapes and Mesh.compute_edge_vectors. Partition of "
-          "unity / reproduction by the Vandermonde-inverted basis and the divergence theorem on physical meshes are NOT decided."),
+          "unity / reproduction by the Vandermonde-inverted basis and the divergence theorem on physical meshes are NOT decided. "
+          "Reference-element tables: the plain and bubble triangle builders and the line element are partially evaluated for degrees "
+          "1..5 (1..4 with bubble) with symbolic Lobatto abscissae; vertexNodes sit at (1,0),(0,1),(0,0), every faceNodes row lists "
+          "the d+1 nodes of its edge counter-clockwise at Lobatto spacing, interiorNodes is the complement, nodes are distinct and the "
+          "bubble element's faces are the plain element's faces renumbered."),
     design_ref="DESIGN.md section 4, C03",
-    technique="static analysis: dispatch-table and sibling rules, axis typing, symbolic identities on generic points, constant folding of quadrature tables against exact moments")
+    technique="static analysis: dispatch-table and sibling rules, axis typing, symbolic identities on generic points, constant folding of quadrature tables against exact moments, partial evaluation of reference-element index tables with symbolic abscissae")
 
 NA = {}
 
